@@ -1003,7 +1003,12 @@ def _run_http_producer_turn(
         try:
             while True:
                 # Snapshot the budgets remaining at the start of this iteration.
-                remaining_wire = None if max_bytes is None else max(0, max_bytes - resp_buf.tell())
+                # ``write_sink.tell()``, not ``resp_buf.tell()``: under a negotiated codec the
+                # compressor sits between the IPC writer and ``resp_buf`` and holds whole blocks
+                # back, so the buffer behind it reads 0 until ~64 KiB have gone in and the cap
+                # below would never be reached.  The sink's own position counts every byte
+                # written into this turn (uncompressed, the same measure the init turn uses).
+                remaining_wire = None if max_bytes is None else max(0, max_bytes - write_sink.tell())
                 remaining_external = (
                     None
                     if max_external_bytes is None or not externalization_enabled
@@ -1064,7 +1069,7 @@ def _run_http_producer_turn(
                 # break after every produce cycle so the client receives
                 # data incrementally.  When ``max_bytes`` is configured,
                 # buffer multiple batches until the HTTP body fills the cap.
-                should_continue = max_bytes is not None and resp_buf.tell() < max_bytes
+                should_continue = max_bytes is not None and write_sink.tell() < max_bytes
                 if not should_continue:
                     # Serialize the cursor into a continuation token.  Only the
                     # cursor: the call token was minted at /init and either the
